@@ -6,6 +6,7 @@ use super::bb_c10::*;
 use super::bb_c12::*;
 use super::bb_c18::*;
 use super::bb_graph::*;
+use super::fuzz_driver::*;
 use super::bb_oneshot::*;
 use super::inc_config::*;
 use super::inc_fs::*;
@@ -770,6 +771,22 @@ fn c14(ctx: &Ctx) -> i32 {
         for f in failures {
             report.fail(f);
         }
+        // coverage-guided byte-level fuzzing of the loader (oracle inside the target)
+        run_fuzz(ctx, &mut report, FuzzSpec {
+            target: "yaml_config",
+            runs: ctx.tier.pick(40_000, 4_000_000),
+            max_len: 2048,
+            dict: Some(verif_dir().join("corpus/yaml.dict")),
+            corpus_seed_dir: verif_dir().join("corpus/yaml_config"),
+            extra_seeds: vec![],
+            jobs: ctx.tier.pick(2, 8),
+            rule: "libFuzzer (coverage-guided, dictionary of schema keys, corpus = every fixture's zinoma.yml) on arbitrary bytes used as the root zinoma.yml next to an importable sub project: no panic; two loads agree on verdict and on the meaning of every accepted name; accepted names obey the documented syntax; non-trivial = corpus entries that are well-formed YAML; distinct = corpus entries kept by the fuzzer",
+            nontrivial: |b| std::str::from_utf8(b).is_ok() && serde_yaml::from_slice::<serde_yaml::Value>(b).is_ok(),
+        });
+    } else if let Some(p) = &ctx.replay {
+        if read_replay(p).is_err() {
+            replay_raw(ctx, &mut report, "yaml_config", p);
+        }
     }
     report.finish()
 }
@@ -854,6 +871,11 @@ fn c05(ctx: &Ctx) -> i32 {
     report.assume("every zinoma spawned here runs under RLIMIT_AS = 4 GiB");
     super::bb::AS_LIMIT_MB.store(4096, std::sync::atomic::Ordering::Relaxed);
     bb_replays(ctx, &mut report);
+    if let Some(p) = &ctx.replay {
+        if read_replay(p).is_err() {
+            replay_raw(ctx, &mut report, "state_file", p);
+        }
+    }
     if ctx.replay.is_none() {
         let rule = "fault x project {one target with files + command inputs, two targets linked by t.output}: script exit status {1,2,126,127,130,137,255}, script killed, zinoma aborting at {decided, deleted, script running, script done, state computed}, record written up to byte k, SIGINT/SIGTERM {just after exec, while the script runs, right after it}, state-file corruption {truncation, bit flip, overwrite, foreign content incl. huge declared lengths, patched length fields, trailing bytes} with the input changed or not; oracle = the next plain invocation exits 0 without panic/abort and runs the script again whenever that is the only correct answer; non-trivial = fault strictly inside the build cycle / corruption keeping the length; distinct = fault class x offset bucket x project";
         let pr = PropRun {
@@ -870,6 +892,33 @@ fn c05(ctx: &Ctx) -> i32 {
         for f in failures {
             report.fail(f);
         }
+        // coverage-guided fuzzing of the state-file reader, in-process, oracle inside the target;
+        // seeded with the fixtures' .checksums files and with records produced just now
+        let mut seeds = vec![];
+        for two in [false, true] {
+            let probe = eval_c05(&C05Case { two_targets: two, fault: Fault::Exit(1), revert: false });
+            let _ = probe;
+        }
+        {
+            let sb = super::bb::Sandbox::new("c05seed");
+            sb.write("proj/src/a.txt", b"a");
+            super::bb::write_project(&sb.path("proj"), &serde_json::json!({"targets": {"t": {"build": ":", "input": [{"paths": ["src"]}, {"cmd_stdout": "echo hi"}], "output": [{"paths": ["out"]}]}}}));
+            let _ = super::bb::run_zinoma(&sb, &sb.path("proj"), &["t".to_string()], &[], std::time::Duration::from_secs(20), false);
+            if let Ok(b) = std::fs::read(sb.path("proj/.zinoma/t.checksums")) {
+                seeds.push(("fresh-record.bin".to_string(), b));
+            }
+        }
+        run_fuzz(ctx, &mut report, FuzzSpec {
+            target: "state_file",
+            runs: ctx.tier.pick(30_000, 3_000_000),
+            max_len: 1024,
+            dict: None,
+            corpus_seed_dir: verif_dir().join("corpus/state_file"),
+            extra_seeds: seeds,
+            jobs: ctx.tier.pick(2, 8),
+            rule: "libFuzzer on arbitrary bytes used as the .checksums file of a target, then the real incremental::run in-process: never an error or a panic; a skip only if the independent decoder accepts the bytes; non-trivial = corpus entries that decode as a record; distinct = corpus entries kept by the fuzzer",
+            nontrivial: |b| independent_decode(b).is_ok(),
+        });
         if ctx.tier == Tier::Thorough {
             // exhaustive sub-spaces: every write offset, every truncation offset, a flip per byte
             let mut part = Part::new("BB-exhaustive", "every partial-write offset 0..=len, every truncation offset (input changed and unchanged), one bit flip per byte, for the one-target and the two-target reference records");
